@@ -41,6 +41,27 @@ def parse_ftok(tok):
     return out
 
 
+def host_class(tok):
+    """Host-multiplicity class of a request's field list, for sections with two or more Host values:
+    `/A<number of :authority fields>H<number of Host fields, 3+ from three on>` followed by `=` (all Host values and all
+    :authority values are one value), `!host` (the Host values differ among themselves) or `!auth` (the Host values are
+    one value, an :authority value is another)."""
+    try:
+        fs = parse_ftok(tok)
+    except ValueError:
+        return ""
+    hosts, auths = [], []
+    for n, v, rep in fs:
+        if n == HOST:
+            hosts += [v] * min(rep, 4)
+        elif n == A:
+            auths += [v] * min(rep, 4)
+    if len(hosts) < 2:
+        return ""
+    rel = "!host" if len(set(hosts)) > 1 else ("!auth" if set(auths) - set(hosts) else "=")
+    return "/A%dH%s%s" % (min(len(auths), 2), "2" if len(hosts) == 2 else "3+", rel)
+
+
 M, S, A, P, ST, PR, HOST = b":method", b":scheme", b":authority", b":path", b":status", b":protocol", b"host"
 
 VALID_NAMES = [b"a", b"x-custom", b"accept", b"content-type", b"set-cookie", b"te", b"cookie", b"x_y.z", b"0", b"!#$%&'*+-.^_`|~",
@@ -89,14 +110,15 @@ class C12(Prop):
                   "Header functions (function level), the real poll_recv_trailers over an in-memory stream, and the real "
                   "server accept+resolve_request / client send_request+recv_response over a private 160-line in-memory "
                   "transport, against the model on identical case lines; tools/extract.py regenerates the Protocol table, the "
-                  "error codes used at the three call sites and four source decisions the model switches on; http crate: four "
+                  "error codes used at the three call sites and five source decisions the model switches on; http crate: four "
                   "validators modelled concretely (all 256 single-byte names/values/methods and digit triples enumerated against "
                   "the real crate), Scheme/Authority/PathAndQuery/Uri::builder abstract with four listed laws, instantiated per "
                   "case by the real crate's verdicts carried on the case line and checked against the laws")
     rule = ("cases: every alphabet name x value in request/response/trailer context, all 256 single-byte names (4 positions incl. "
             "a 65-byte name) and values, all 256 single-byte methods, status digit triples, scheme/authority/path/protocol "
             "alphabets, presence/absence/duplication/contradiction of the 7 special fields (3^7 combinations + orderings), "
-            "CONNECT variants, host/authority contradictions, field counts around and far beyond 24576 (no limit), 24576 / 24577 distinct names (the HeaderMap limit), seeded random lists; every second "
+            "CONNECT variants, host/authority contradictions, Host multiplicity (0-3 Host values, equal / one different at each position / "
+            "all different from :authority, x 0/1/2 :authority fields x Host before/after/around :authority), field counts around and far beyond 24576 (no limit), 24576 / 24577 distinct names (the HeaderMap limit), seeded random lists; every second "
             "request/response case (thorough: every one) again through the real server/client call site; sent side: methods x "
             "URI shapes x protocol x maps; non-trivial = implementation result is ok/reject/refused/sent "
             "(not bad-op/bad-verdicts/unbuildable/panic/law-violated)")
@@ -111,8 +133,10 @@ class C12(Prop):
                    "the name; any number of values per name; the hash-flooding defence (yellow/red danger states after probe "
                    "sequences of >= 512 slots) is not modelled; checked by boundary cases on the real crate",
                    "caller-built HeaderMap names satisfy HeaderName's invariant (no ':'), values HeaderValue's",
-                   "R-12: duplicated pseudo-header fields, several Host fields, pseudo-header fields after regular ones, "
-                   "request pseudo-fields in responses and vice versa, missing :scheme/:path are not demanded by the property text"]
+                   "R-12: duplicated pseudo-header fields (which of several different values counts), pseudo-header fields after "
+                   "regular ones, request pseudo-fields in responses and vice versa, missing :scheme/:path are not demanded by the "
+                   "property text; R-12b: every Host value must be the :authority value when there is one, and without :authority "
+                   "the Host values must be one value (several identical Host fields are not refused)"]
 
     # ------------------------------------------------------------------ verdict pre-pass
     def verdicts(self, ftoks):
@@ -258,6 +282,33 @@ class C12(Prop):
             recv("req", [(M, b"GET"), (HOST, a), (HOST, h)])
             recv("req", [(A, a), (HOST, h)])
 
+        # Host multiplicity (D-12e): 0/1/2/3 Host values, all equal / one of them different (at each position: another
+        # name, empty, differing in case / port / a trailing space only, unparseable) / all equal but not the :authority
+        # value; without :authority, with one, with two (equal, different: the last one counts); :authority before, after
+        # and between the Host values; as a minimal request and as a full one with a regular field in between
+        others = [b"b.com", b"", b"A.com", b"a.com:443", b"a.com ", b"a b"]
+        for k in (0, 1, 2, 3):
+            variants = [[b"a.com"] * k]
+            for pos in range(k):
+                for o in others:
+                    hv = [b"a.com"] * k
+                    hv[pos] = o
+                    variants.append(hv)
+            if k >= 2:
+                variants.append([b"b.com"] * k)
+            for hv in variants:
+                hosts = [(HOST, v) for v in hv]
+                for au in ([], [(A, b"a.com")], [(A, b"b.com"), (A, b"a.com")], [(A, b"a.com"), (A, b"a.com")]):
+                    recv("req", [(M, b"GET")] + au + hosts)
+                    recv("req", [(M, b"GET")] + hosts + au)
+                    if k >= 2:
+                        recv("req", [(M, b"GET")] + hosts[:1] + au + hosts[1:])
+                        recv("req", [(M, b"GET"), (S, b"https")] + hosts[:-1] + [(b"x", b"1")] + au + [(P, b"/")] + hosts[-1:])
+        # the same Host values in a response and in trailers are ordinary fields
+        for hv in ([b"a.com", b"b.com"], [b"a.com", b"a.com", b""]):
+            recv("resp", RESP_BASE + [(HOST, v) for v in hv])
+            recv("trl", [(HOST, v) for v in hv])
+
         # presence / absence / duplication (with a contradicting second value) of the seven special fields
         special = [(M, b"GET", b"POST"), (S, b"https", b"http"), (A, b"a.com", b"b.com"), (P, b"/", b"/x"),
                    (ST, b"200", b"404"), (PR, b"webtransport", b"websocket"), (HOST, b"a.com", b"c.com")]
@@ -385,6 +436,12 @@ class C12(Prop):
             if rng.random() < 0.1:
                 i = rng.randrange(len(fs) + 1)
                 fs.insert(i, (rng.choice(BAD_NAMES + BAD_PSEUDO), b"v") if rng.random() < 0.5 else (b"a", rng.choice(BAD_VALUES)))
+            if op == "req" and rng.random() < 0.15:
+                # further Host values: the request's own authority again, or (one time in three) something else
+                own = [v for n, v in fs if n in (A, HOST)][0]
+                for _ in range(rng.randrange(1, 4)):
+                    v = own if rng.random() < 0.67 else rng.choice([b"b.com", b"c.com", b"", own + b":443"])
+                    fs.insert(rng.randrange(len(fs) + 1), (HOST, v))
             recv(op, fs)
 
         # ---------------------------------------------------------------- sent side
@@ -442,7 +499,10 @@ class C12(Prop):
         k = r[0]
         if k == "reject" and len(r) > 1:
             k += "/" + r[1]
-        return "%s/%s" % (w[1], k)
+        k = "%s/%s" % (w[1], k)
+        if w[1] in ("req", "srv"):
+            k += host_class(w[2])
+        return k
 
     def trivial(self, line, impl):
         return impl.split(" ")[0] not in ("ok", "reject", "refused", "sent")
